@@ -174,6 +174,54 @@ func (idx *KVIndex) termGetCount(tx kvi.KVTransaction, field string, ttype TermT
 	return count, nil
 }
 
+// RemoveDocTx removes the index entries that AddDocTx created for a document with the
+// given content. The caller supplies the content that was indexed, so the entries are
+// found without the per-id document record, which documents that share an id (the same
+// id in two graphs, or a vertex and an edge) overwrite for one another.
+func (idx *KVIndex) RemoveDocTx(tx kvi.KVTransaction, docID string, doc map[string]interface{}) error {
+	for field, p := range idx.Fields {
+		x := mapDig(doc, p)
+		if x == nil {
+			continue
+		}
+		term, t := GetTermBytes(x)
+		if t != TermString && t != TermNumber {
+			continue
+		}
+		entryKey := EntryKey(field, t, term, docID)
+		if _, err := tx.Get(entryKey); err != nil {
+			continue
+		}
+		if err := tx.Delete(entryKey); err != nil {
+			return fmt.Errorf("failed to delete entry %s: %v", entryKey, err)
+		}
+		// is the term still used by another document?
+		remaining := false
+		entryPrefix := EntryValuePrefix(field, t, term)
+		tx.View(func(it kvi.KVIterator) error {
+			for it.Seek(entryPrefix); it.Valid() && bytes.HasPrefix(it.Key(), entryPrefix); it.Next() {
+				if !bytes.Equal(it.Key(), entryKey) {
+					remaining = true
+					return nil
+				}
+			}
+			return nil
+		})
+		termKey := TermKey(field, t, term)
+		if remaining {
+			//set the term count to 0 to invalidate it, it is recounted when read
+			buf := make([]byte, binary.MaxVarintLen64)
+			binary.PutUvarint(buf, 0)
+			if err := tx.Set(termKey, buf); err != nil {
+				return fmt.Errorf("failed to set term key %s: %v", termKey, err)
+			}
+		} else if err := tx.Delete(termKey); err != nil {
+			return fmt.Errorf("failed to delete term key %s: %v", termKey, err)
+		}
+	}
+	return nil
+}
+
 // RemoveDoc removes a document from the index: TODO
 func (idx *KVIndex) RemoveDoc(docID string) error {
 	err := idx.KV.Update(func(tx kvi.KVTransaction) error {
